@@ -49,7 +49,7 @@ func (e *Exec) isZeroScalar(v Value, t types.Type) *T {
 			return sym.Not(x)
 		}
 		if isFloat(t) {
-			return sym.Eq(x, sym.BVC(x.S.W, 0)) // gob omits +0 only (bit pattern zero)
+			return sym.FPIsZero(x) // gob omits a float f when f == 0 (both zeros)
 		}
 		return sym.Eq(x, sym.BVC(x.S.W, 0))
 	case Str:
@@ -124,7 +124,7 @@ func (e *Exec) gobTransmit(v Value, t types.Type) Value {
 		}
 		return &Struct{F: f}
 	case *types.Slice:
-		s := e.res(v).(Slice)
+		s := v.(Slice)
 		if s.Abs != nil {
 			return s // []byte payload travels unchanged
 		}
@@ -135,7 +135,7 @@ func (e *Exec) gobTransmit(v Value, t types.Type) Value {
 		for i := 0; i < s.Len; i++ {
 			no.Elems[i] = e.gobTransmit(s.Obj.Elems[s.Off+i], u.Elem())
 		}
-		return Slice{Obj: no, Len: s.Len, Cap: s.Len}
+		return Slice{Obj: no, Len: s.Len, Cap: s.Len, Guard: s.Guard} // a guarded slice stays guarded (no fork)
 	case *types.Array:
 		a := v.(*Array)
 		el := make([]Value, len(a.E))
@@ -144,7 +144,7 @@ func (e *Exec) gobTransmit(v Value, t types.Type) Value {
 		}
 		return &Array{E: el}
 	case *types.Map:
-		m := e.res(v).(MapRef)
+		m := v.(MapRef)
 		if m.M == nil {
 			return MapRef{}
 		}
@@ -159,16 +159,19 @@ func (e *Exec) gobTransmit(v Value, t types.Type) Value {
 			}
 			nm.Entries = append(nm.Entries, ne)
 		}
-		return MapRef{M: nm}
+		return MapRef{M: nm, Guard: m.Guard}
 	case *types.Interface:
-		i := e.res(v).(Iface)
+		i := v.(Iface)
 		if i.T == nil {
 			return Iface{}
 		}
 		if !e.gobRegistered(i.T) {
+			if i.Guard != nil && !e.Branch(i.Guard) {
+				return Iface{}
+			}
 			panic(gobErr{"gob: type not registered for interface: " + i.T.String()})
 		}
-		return Iface{T: i.T, V: e.gobTransmit(i.V, i.T)}
+		return Iface{T: i.T, V: e.gobTransmit(i.V, i.T), Guard: i.Guard}
 	}
 	e.unsupported("gob transmit of %v", t)
 	return nil
